@@ -39,3 +39,14 @@ package types
 //@   returns tag
 //@   nopanic
 //@ end
+
+// A request id is the context id followed by batch counter, height and index (assumed contract: context ids have one
+// fixed length, so the id decodes uniquely - the two projections are what SplitRequestID returns)
+//@ func GenerateRequestID
+//@   property C08, C13
+//@   trusted
+//@   returns id
+//@   ensures ctx_of:   ufbytes("req_ctx", id) == requestContextID
+//@   ensures batch_of: uf("req_batch", id) == requestContextBatchCounter
+//@   nopanic
+//@ end
